@@ -22,8 +22,11 @@ it denotes satisfies `Spec.CoalescedOk`.
 Not proved here:  that the TEXT `renderHeader gs` is parsed by pdsh into the structure `gs` (the
 check decides that on the real `pdsh -Q -w HEADER` for every generated header, and compares
 `hostsOf` with pdsh's answer);  hostlist.c's limits (F19-LONGRUN);  Perl itself.
-Genuine defects mirrored by the model: D21 (`unterminated_dropped`), F19-EMPTYSTEM
-(`emptystem_witness`; excluded from `compress_expands` by `NoStemClash`).
+Genuine defects mirrored by the model, each with a switchable repaired variant that the check
+selects by probing the real script: D21 (`unterminated_dropped` / `repaired_keeps_last`),
+F19-EMPTYSTEM (`emptystem_witness`; excluded from `compress_expands` by `NoStemClash`, no exclusion
+left in `compress_expands_repaired`), F19-LONGRUN (`longrun_witness`, `ranges_within_limit`;
+`compress_expands` holds for every limit).
 -/
 namespace PdshVerif.Props.C19
 open PdshVerif.Dshbak
@@ -60,7 +63,7 @@ original order, whatever order Perl enumerates the hash in -/
 theorem normal_spec (rep : Bool) (ls : List InLine) (h : ∀ l ∈ ls, l.WF) (ks : List Str)
     (hks : ks.Perm (keys (table rep ls))) :
     Spec.NormalOk (recsOf ls) (normalBlocks ks (table rep ls)) := by
-  have hs : (sortn ks).Perm ks := stableSort_perm _ _
+  have hs : (sortn ks).Perm ks := sortn_perm _
   have hnd : (keys (table rep ls)).Nodup := keys_nodup_foldl rep _ [] (by simp [keys])
   have hfst : (normalBlocks ks (table rep ls)).map Prod.fst = sortn ks := by
     simp [normalBlocks, List.map_map, Function.comp_def]
@@ -127,17 +130,29 @@ theorem partition (rep : Bool) (ls : List InLine) (h : ∀ l ∈ ls, l.WF) (ks :
 /-- the compressed header denotes its group: whatever order the suffix groups come in, the hosts
 the structured header stands for (prefix, zero-padded ranges at the width of the lower bound as
 typed, suffix) are a rearrangement of the hosts that were compressed -/
-theorem compress_expands (g : List Str) (hnd : g.Nodup) (hdom : NoStemClash g)
-    (gs : List (List Elem)) (hgs : gs.Perm (compressGroups g)) : (hostsOf gs).Perm g :=
-  compress_denotes g hnd hdom gs hgs
+theorem compress_expands (lim : Option Nat) (g : List Str) (hnd : g.Nodup) (hdom : NoStemClash g)
+    (gs : List (List Elem)) (hgs : gs.Perm (compressGroups lim g)) : (hostsOf gs).Perm g :=
+  compress_denotes lim g hnd hdom gs hgs
+
+/-- the same for the script with F19-EMPTYSTEM repaired — now for EVERY set of distinct names: the
+domain restriction `NoStemClash` is gone (and it holds with or without the F19-LONGRUN repair) -/
+theorem compress_expands_repaired (lim : Option Nat) (g : List Str) (hnd : g.Nodup)
+    (gs : List (List Elem)) (hgs : gs.Perm (compressGroupsFixed lim g)) : (hostsOf gs).Perm g :=
+  compress_fixed_denotes lim g hnd gs hgs
+
+/-- with F19-LONGRUN repaired no range element of a header stands for more than `m` consecutive
+numbers (`m` = 16384 = hostlist.c's MAX_RANGE), in either form of `compress` -/
+theorem ranges_within_limit (m : Nat) (hm : 0 < m) (stemFix : Bool) (tags : List Str) :
+    ∀ grp ∈ compressV (some m) stemFix tags, ∀ e ∈ grp, ∀ r ∈ e.runs, r.hi - r.lo < m :=
+  compressV_within m hm stemFix tags
 
 /-- -c mode with every header replaced by what it denotes satisfies the specification: every host
 under exactly one header, merged iff identical outputs, each body once, and each header stands for
 exactly the hosts whose output it heads -/
 theorem coalesced_headers_spec (rep : Bool) (ls : List InLine) (h : ∀ l ∈ ls, l.WF) (ks : List Str)
     (hks : ks.Perm (keys (table rep ls)))
-    (order : List Str → List (List Elem))
-    (horder : ∀ b ∈ coalesce ks (table rep ls), (order b.1).Perm (compressGroups b.1))
+    (lim : Option Nat) (order : List Str → List (List Elem))
+    (horder : ∀ b ∈ coalesce ks (table rep ls), (order b.1).Perm (compressGroups lim b.1))
     (hdom : ∀ b ∈ coalesce ks (table rep ls), NoStemClash b.1) :
     Spec.CoalescedOk (recsOf ls)
       ((coalesce ks (table rep ls)).map fun b => (hostsOf (order b.1), b.2)) := by
@@ -147,7 +162,22 @@ theorem coalesced_headers_spec (rep : Bool) (ls : List InLine) (h : ∀ l ∈ ls
   have hsub : b.1.Sublist ((coalesce ks (table rep ls)).flatMap Prod.fst) := by
     rw [List.flatMap_def]
     exact List.sublist_flatten_of_mem (List.mem_map.mpr ⟨b, hb, rfl⟩)
-  exact compress_expands b.1 (hsub.nodup sp.once) (hdom b hb) _ (horder b hb)
+  exact compress_expands lim b.1 (hsub.nodup sp.once) (hdom b hb) _ (horder b hb)
+
+/-- the same for the repaired script, without any restriction on the host names -/
+theorem coalesced_headers_spec_repaired (rep : Bool) (ls : List InLine) (h : ∀ l ∈ ls, l.WF)
+    (ks : List Str) (hks : ks.Perm (keys (table rep ls)))
+    (lim : Option Nat) (order : List Str → List (List Elem))
+    (horder : ∀ b ∈ coalesce ks (table rep ls), (order b.1).Perm (compressGroupsFixed lim b.1)) :
+    Spec.CoalescedOk (recsOf ls)
+      ((coalesce ks (table rep ls)).map fun b => (hostsOf (order b.1), b.2)) := by
+  have sp := coalesce_spec rep ls h ks hks
+  apply sp.perm_heads (fun b => hostsOf (order b.1))
+  intro b hb
+  have hsub : b.1.Sublist ((coalesce ks (table rep ls)).flatMap Prod.fst) := by
+    rw [List.flatMap_def]
+    exact List.sublist_flatten_of_mem (List.mem_map.mpr ⟨b, hb, rfl⟩)
+  exact compress_expands_repaired lim b.1 (hsub.nodup sp.once) _ (horder b hb)
 
 /-! ### defects of the unchanged script, mirrored by the model -/
 
@@ -170,7 +200,17 @@ theorem repaired_keeps_last (l : Str) : matchLine true (l, false) = matchLine tr
 
 /-- F19-EMPTYSTEM witness: `foo` and `1foo` with identical output get the header `[-1]foo` -/
 theorem emptystem_witness :
-    renderHeader (compressGroups (strSort ["foo".toList, "1foo".toList])) = "[-1]foo".toList := by
+    renderHeader (compressGroups none (strSort ["foo".toList, "1foo".toList])) = "[-1]foo".toList ∧
+    renderHeader (compressGroupsFixed none (strSort ["foo".toList, "1foo".toList])) =
+      "foo,1foo".toList := by
+  decide
+
+/-- F19-LONGRUN in miniature (limit 3 instead of 16384): the unchanged script builds one range, the
+repaired one starts a new element when the limit is reached -/
+theorem longrun_witness :
+    renderHeader (compressGroups none (["n1", "n2", "n3", "n4"].map String.toList)) = "n[1-4]".toList ∧
+    renderHeader (compressGroups (some 3) (["n1", "n2", "n3", "n4"].map String.toList)) =
+      "n[1-3,4]".toList := by
   decide
 
 /-! ### the hypotheses are satisfiable (non-vacuity) -/
@@ -181,10 +221,10 @@ example : (FRec.mk " ".toList "n01".toList "\t".toList false "up".toList).WF :=
 example : NoStemClash ["n08-ib".toList, "n09-ib".toList, "n10-ib".toList, "foo".toList, "7".toList] := by
   unfold NoStemClash; decide
 
-example : renderHeader (compressGroups (strSort ["n08-ib".toList, "n09-ib".toList, "n10-ib".toList])) =
+example : renderHeader (compressGroups none (strSort ["n08-ib".toList, "n09-ib".toList, "n10-ib".toList])) =
     "n[08-10]-ib".toList := by decide
 
-example : hostsOf (compressGroups (strSort ["n08-ib".toList, "n09-ib".toList, "n10-ib".toList])) =
+example : hostsOf (compressGroups none (strSort ["n08-ib".toList, "n09-ib".toList, "n10-ib".toList])) =
     ["n08-ib".toList, "n09-ib".toList, "n10-ib".toList] := by decide
 
 end PdshVerif.Props.C19
